@@ -92,10 +92,15 @@ PChange(p, kb, k, v, n) ==
   IN [q EXCEPT !.mem = IF v = Absent THEN Del(p.mem, k) ELSE Put(p.mem, k, v),
                !.log[b] = Append(@, PutD(k, v))]
 
-\* add_entry for the keys <pre><from> .. <pre><from+n-1>, same location
-RECURSIVE PBulk(_, _, _, _)
-PBulk(p, kb, e, i) ==
-  IF i = e.n THEN p ELSE PBulk(PChange(p, kb, e.pre \o ToString(e.from + i), e.loc, 1), kb, e, i + 1)
+\* add_entry for the keys <pre><from> .. <pre><from+n-1> of one bucket, same location: one "bulk" delta
+BulkKeys(e) == [i \in 1..e.n |-> e.pre \o ToString(e.from + i - 1)]
+PBulk(p, kb, e) ==
+  LET ks == BulkKeys(e)
+      S  == {ks[i] : i \in 1..e.n}
+      b  == kb[ks[1]]
+  IN [Bump(p, b, e.n) EXCEPT !.mem = [x \in DOMAIN p.mem \cup S |-> IF x \in S THEN e.loc ELSE p.mem[x]],
+                             !.log[b] = Append(@, [t |-> "bulk", k |-> ks, v |-> e.loc])]
+ApplyBulk(m, d, j) == LET S == {d.k[i] : i \in 1..j} IN [x \in DOMAIN m \cup S |-> IF x \in S THEN d.v ELSE m[x]]
 
 PFlushSet(p, kb, B) ==   \* flush_updates_for_bucket for every bucket in B
   LET W  == {b \in B \cap BOf(p) : p.dirty[b]}                 \* buckets that must reach the disk
@@ -120,11 +125,25 @@ PClearSet(p, kb, B) ==
 
 \* some durable snapshot of one bucket (base + a prefix of the log) equals tgt;
 \* with lossZ, a snapshot that contains the all-zero key may come back without it (F05b)
+SnapOK(m, tgt, lossZ) == m = tgt \/ (lossZ /\ ZeroKey \in DOMAIN m /\ Del(m, ZeroKey) = tgt)
+
+\* a prefix of a bulk delta: if any prefix j fits, the shortest candidate does, namely the last position whose
+\* key tgt does not show as it is in m (everything after it is untouched, everything before it must be written)
+RECURSIVE LastTouched(_, _, _, _)
+LastTouched(m, d, tgt, i) ==
+  IF i = 0 THEN 0
+  ELSE LET k == d.k[i]
+           same == (k \in DOMAIN tgt) = (k \in DOMAIN m) /\ (k \in DOMAIN m => tgt[k] = m[k])
+       IN IF same THEN LastTouched(m, d, tgt, i - 1) ELSE i
+
 RECURSIVE Reach(_, _, _, _, _)
 Reach(m, lg, i, tgt, lossZ) ==
-  \/ m = tgt
-  \/ lossZ /\ ZeroKey \in DOMAIN m /\ Del(m, ZeroKey) = tgt
-  \/ i <= Len(lg) /\ Reach(ApplyD(m, lg[i]), lg, i + 1, tgt, lossZ)
+  \/ SnapOK(m, tgt, lossZ)
+  \/ /\ i <= Len(lg)
+     /\ IF lg[i].t = "bulk"
+        THEN \/ SnapOK(ApplyBulk(m, lg[i], LastTouched(m, lg[i], tgt, Len(lg[i].k))), tgt, lossZ)
+             \/ Reach(ApplyBulk(m, lg[i], Len(lg[i].k)), lg, i + 1, tgt, lossZ)
+        ELSE Reach(ApplyD(m, lg[i]), lg, i + 1, tgt, lossZ)
 
 ReloadOK(p, kb, om, lossZ) ==
   \A b \in UsedB(kb) : LET S == KeysOf(kb, b) IN Reach(Restr(p.base, S), p.log[b], 1, Restr(om, S), lossZ)
@@ -154,7 +173,8 @@ Expect(p, kb, e) ==
     [] e.op = "fill" ->     \* n >= 1 calls of add_entry(k, loc)
          [st |-> IF e.n >= 1 THEN PChange(p, kb, e.k, e.loc, e.n) ELSE p, rok |-> e.res \in {"ok", "noflush"} /\ e.n >= 1]
     [] e.op = "bulk" ->
-         [st |-> PBulk(p, kb, e, 0), rok |-> e.res = "ok"]
+         LET ks == BulkKeys(e)
+         IN [st |-> PBulk(p, kb, e), rok |-> e.res = "ok" /\ e.n >= 1 /\ \A i \in 1..e.n : kb[ks[i]] = kb[ks[1]]]
     [] e.op = "update" ->
          IF e.k \notin DOMAIN p.mem THEN [st |-> p, rok |-> e.res = "false"]
          ELSE IF e.res = "true" THEN [st |-> PChange(p, kb, e.k, e.loc, 1), rok |-> TRUE]
